@@ -44,6 +44,7 @@ func c17CaseBody(name string, mk func() *world.Case, withHost bool) c17Body {
 		env := world.NewA(cs, opts)
 		point()
 		obs := env.Invoke(cs)
+		point() // the host reads the results later: whatever the entry point handed back must stay what it was
 		tr := env.EVM.Tracer()
 		return obs.Key() + "\nerr=" + obs.Err + "\nhost=" + strings.Join(log.Calls, ";") + "\n" + strings.Join(rec.Lines, "\n") + "\n" + tr.StateChanges().VerifDump() + tr.CallTree().VerifDump()
 	}}
@@ -114,6 +115,15 @@ func c17Bodies() []c17Body {
 		tr := r.Env.EVM.Tracer()
 		return fmt.Sprintf("ret=%x gas=%d err=%v panic=%s\n%s\n%s%s", r.Ret, r.Gas, r.Err, r.Panic, strings.Join(r.Events(), "\n"), tr.StateChanges().VerifDump(), tr.CallTree().VerifDump())
 	}})
+	// a frame that reverts with data (what the entry point hands back must not be shared with anything another
+	// instance can write to), after a nested call that returned data
+	out = append(out, c17CaseBody("revert with data", func() *world.Case {
+		a := asm.New().Push(32).Push(64).Push(0).Push(0).Push(0).PushAddr(gen.CRet).Push(60000).Op(asm.CALL, asm.POP)
+		a.Push32(gen.Pattern).Push(0).Op(asm.MSTORE).Push32(common.HexToHash("0xa1a2a3a4a5a6a7a8a9aaabacadaeafb0b1b2b3b4b5b6b7b8b9babbbcbdbebfc0")).Push(32).Op(asm.MSTORE).Push(96).Push(0).Op(asm.REVERT)
+		cs := gen.StdCase(world.Shanghai, a.Bytes(), "call", 300000)
+		cs.Note = "revert with data"
+		return cs
+	}, false))
 	return out
 }
 
@@ -272,7 +282,7 @@ func init() {
 		ID:        "C17",
 		Level:     "model_checking",
 		Technique: "stateless exploration of thread interleavings of real EVM instances under a cooperative scheduler (scheduling points: before EVM construction, before every instruction, at every frame and Aspect enter/exit), all schedules up to a preemption bound; every Cancel position against running loops; auxiliary free-running pass of the same bodies under the Go race detector",
-		Rule: "(a) instances = {plain program with nested call/storage/log, London program with extra EIP 3855, London program for which PUSH0 must stay invalid, journal opcodes over the shared decoder constants, context-write precompile from two different callers, Aspects bound with burning and failing answers}; every ordered pair (and selected triples) each on its own StateDB; all interleavings with <= k preemptions; oracle: every instance's canonical observation (result, event stream with gas, host callbacks, call tree, journal dump) equals its solo observation. (b) Cancel from another goroutine after each of the first N scheduling points of {flat loop, loop calling a looping callee, loop in init code}: no panic, at most (open frames x loop body + 1) further instructions, Cancelled() true, depth 0, call-tree cursor nil, static flag clear. (c) auxiliary: the same bodies free-running on 16 goroutines under -race; a race report fails the check. non-trivial = distinct schedules with at least one preemption",
+		Rule: "(a) instances = {plain program with nested call/storage/log, London program with extra EIP 3855, London program for which PUSH0 must stay invalid, journal opcodes over the shared decoder constants, context-write precompile from two different callers, Aspects bound with burning and failing answers, a frame reverting with data after a nested call}; results are read after one more scheduling point (a host that looks at them later); every ordered pair (and selected triples) each on its own StateDB; all interleavings with <= k preemptions; oracle: every instance's canonical observation (result, event stream with gas, host callbacks, call tree, journal dump) equals its solo observation. (b) Cancel from another goroutine after each of the first N scheduling points of {flat loop, loop calling a looping callee, loop in init code}: no panic, at most (open frames x loop body + 1) further instructions, Cancelled() true, depth 0, call-tree cursor nil, static flag clear. (c) auxiliary: the same bodies free-running on 16 goroutines under -race; a race report fails the check. non-trivial = distinct schedules with at least one preemption",
 		Assumptions: []string{"preemption points are callback boundaries; interference confined to a single instruction is visible only to the race pass", "the race pass is auxiliary evidence (sampling of real schedules), reported separately in the counters"},
 		Bounds: func(t string) map[string]any {
 			return map[string]any{"preemption_bound": map[string]int{"quick": 2, "thorough": 3}[t], "cancel_positions": map[string]int{"quick": 120, "thorough": 400}[t], "instances": len(c17Bodies())}
@@ -311,7 +321,7 @@ func init() {
 					groups = append(groups, []int{i, j})
 				}
 			}
-			groups = append(groups, []int{1, 3, 0}, []int{5, 6, 4}, []int{7, 5, 6})
+			groups = append(groups, []int{1, 3, 0}, []int{5, 6, 4}, []int{7, 5, 6}, []int{8, 0, 8})
 			for gi, ids := range groups {
 				if !w.MineKey(fw.Hash(fmt.Sprint(ids))) {
 					continue
